@@ -85,12 +85,38 @@ func Inputs(seed uint64) [][]byte {
 			c[i] |= 0x81
 		}
 	}
-	return [][]byte{a, b, c, d}
+	// every input is a window of a larger buffer (spare capacity behind it, as a sample cut out of a
+	// longer stream has): a callee that appends to its argument writes into the caller's memory
+	out := [][]byte{a, b, c, d}
+	for i, in := range out {
+		back := make([]byte, len(in)+spare)
+		copy(back, in)
+		for k := len(in); k < len(back); k++ {
+			back[k] = byte(0xA0 + k%7)
+		}
+		out[i] = back[:len(in)]
+	}
+	return out
 }
 
-func sum(b []byte) [20]byte { return sha1.Sum(b) }
+const spare = 64
+
+// bitsWindow expands bytes to bits inside a buffer with spare capacity.
+func bitsWindow(data []byte) []bool {
+	b := refmodel.Bits(data)
+	back := make([]bool, len(b)+spare)
+	copy(back, b)
+	for k := len(b); k < len(back); k++ {
+		back[k] = k%3 == 0
+	}
+	return back[:len(b)]
+}
+
+// sum and bitsSum hash the whole backing array, including the spare capacity behind the window.
+func sum(b []byte) [20]byte { return sha1.Sum(b[:cap(b)]) }
 
 func bitsSum(b []bool) [20]byte {
+	b = b[:cap(b)]
 	x := make([]byte, len(b))
 	for i, v := range b {
 		if v {
@@ -135,7 +161,7 @@ func Handle(t e1.Task) (*e1.Result, map[uint64]struct{}) {
 	inputs := Inputs(1)
 	bitsIn := make([][]bool, len(inputs))
 	for i := range inputs {
-		bitsIn[i] = refmodel.Bits(inputs[i])
+		bitsIn[i] = bitsWindow(inputs[i])
 	}
 	vsched.MaxTouches = p.MaxTouches
 	if vsched.MaxTouches <= 0 {
@@ -335,8 +361,10 @@ func seqSearch(t e1.Task, ops []Op, inputs [][]byte, bitsIn [][]bool, start time
 			if sum(inputs[i]) != inSums[i] || bitsSum(bitsIn[i]) != bitSums[i] {
 				violation = fmt.Sprintf("%s(input %d) modified input %d", ops[a.op].Name, a.in, i)
 				// restore so that the search can go on
-				copy(inputs[i], Inputs(1)[i])
-				copy(bitsIn[i], refmodel.Bits(inputs[i]))
+				fresh := Inputs(1)[i]
+				copy(inputs[i][:cap(inputs[i])], fresh[:cap(fresh)])
+				fb := bitsWindow(inputs[i])
+				copy(bitsIn[i][:cap(bitsIn[i])], fb[:cap(fb)])
 			}
 		}
 	}
@@ -638,7 +666,7 @@ func Race(ctx *common.Ctx, cold int) int {
 	inputs := append(Inputs(1), enum.FillerBytes(2500, 77), enum.FillerBytes(4200, 78))
 	bitsIn := make([][]bool, len(inputs))
 	for i := range inputs {
-		bitsIn[i] = refmodel.Bits(inputs[i])
+		bitsIn[i] = bitsWindow(inputs[i])
 	}
 	pick := func(o, pref int) int {
 		for len(inputs[pref]) < ops[o].Min {
